@@ -14,22 +14,43 @@
 (* none of them collides with the alphabet.                                   *)
 EXTENDS Rational, Sequences, FiniteSets, TLC, Json
 
-Syms == {"foo", "qux"}
-Keys == {"foo", "qux", "kfoo", "kqux"}
-Base(k) == IF k = "kfoo" THEN "foo" ELSE IF k = "kqux" THEN "qux" ELSE k
-IsPrefixed(k) == k \in {"kfoo", "kqux"}
+\* Two alphabets, selected by the constant Alias (set in the cfg):
+\*   FALSE  two user symbols foo, qux (absent at first)
+\*   TRUE   user symbol foo and the library's own symbol "s" (present from the start in a registry built with
+\*          the defaults: scale 1, prefixable, time); its probes are written with the ALIAS spellings the tokenizer
+\*          maps to table symbols ("second" -> s, "kilosecond" -> ks), so the memo key does not mention the symbol
+CONSTANT Alias
+Sym2 == IF Alias THEN "s" ELSE "qux"
+K2 == IF Alias THEN "ks" ELSE "kqux"
+Syms == {"foo", Sym2}
+Keys == {"foo", Sym2, "kfoo", K2}
+KeySeq == <<"foo", Sym2, "kfoo", K2>>
+Base(k) == IF k = "kfoo" THEN "foo" ELSE IF k = K2 THEN Sym2 ELSE k
+IsPrefixed(k) == k \in {"kfoo", K2}
 Scales == {2, 4}
 Dims == {"L", "T"}
 DimVec(d) == IF d = "L" THEN <<1, 0>> ELSE <<0, 1>>
 DAdd(a, b) == <<a[1] + b[1], a[2] + b[2]>>
 DSub(a, b) == <<a[1] - b[1], a[2] - b[2]>>
-ProbeSeq == <<"foo", "qux", "kfoo", "kqux", "foo**2", "foo*qux", "kfoo/qux">>
+ProbeSeq == IF Alias THEN <<"foo", "second", "kfoo", "kilosecond", "s", "foo*second", "kfoo/second">>
+            ELSE <<"foo", "qux", "kfoo", "kqux", "foo**2", "foo*qux", "kfoo/qux">>
 Probes == {ProbeSeq[i] : i \in DOMAIN ProbeSeq}
+\* shape of a probe string: how the table symbols it mentions (after alias mapping) combine
+ProbeOp(p) == CASE p = "foo**2" -> "sq"
+                [] p \in {"foo*qux", "foo*second"} -> "mul"
+                [] p \in {"kfoo/qux", "kfoo/second"} -> "div"
+                [] OTHER -> "id"
 Atoms(p) == CASE p = "foo**2" -> <<"foo">>
               [] p = "foo*qux" -> <<"foo", "qux">>
               [] p = "kfoo/qux" -> <<"kfoo", "qux">>
+              [] p = "second" -> <<"s">>
+              [] p = "kilosecond" -> <<"ks">>
+              [] p = "foo*second" -> <<"foo", "s">>
+              [] p = "kfoo/second" -> <<"kfoo", "s">>
               [] OTHER -> <<p>>
-ProbeKind(p) == IF p \in Syms THEN "atomic" ELSE IF p \in Keys THEN "prefixed" ELSE "compound"
+ProbeKind(p) == IF ProbeOp(p) # "id" THEN "compound" ELSE IF IsPrefixed(Atoms(p)[1]) THEN "prefixed" ELSE "atomic"
+\* does the memo key mention the table symbol literally? (alias spellings do not)
+Spelling(p) == IF p \in {"second", "kilosecond", "foo*second", "kfoo/second"} THEN "alias" ELSE "symbol"
 Absent == [scale |-> 0, pfx |-> FALSE, dim |-> "L"]
 None == [k |-> "none"]
 
@@ -47,13 +68,13 @@ RefAtom(t, a) ==
   ELSE IF IsPrefixed(a) /\ t[Base(a)].scale # 0 /\ t[Base(a)].pfx
        THEN [ok |-> TRUE, s |-> R(1000 * t[Base(a)].scale), d |-> DimVec(t[Base(a)].dim)]
        ELSE [ok |-> FALSE, s |-> RZero, d |-> <<0, 0>>]
-CombineS(p, v) == CASE p = "foo**2" -> RMul(v[1], v[1])
-                    [] p = "foo*qux" -> RMul(v[1], v[2])
-                    [] p = "kfoo/qux" -> RDiv(v[1], v[2])
+CombineS(p, v) == CASE ProbeOp(p) = "sq" -> RMul(v[1], v[1])
+                    [] ProbeOp(p) = "mul" -> RMul(v[1], v[2])
+                    [] ProbeOp(p) = "div" -> RDiv(v[1], v[2])
                     [] OTHER -> v[1]
-CombineD(p, v) == CASE p = "foo**2" -> DAdd(v[1], v[1])
-                    [] p = "foo*qux" -> DAdd(v[1], v[2])
-                    [] p = "kfoo/qux" -> DSub(v[1], v[2])
+CombineD(p, v) == CASE ProbeOp(p) = "sq" -> DAdd(v[1], v[1])
+                    [] ProbeOp(p) = "mul" -> DAdd(v[1], v[2])
+                    [] ProbeOp(p) = "div" -> DSub(v[1], v[2])
                     [] OTHER -> v[1]
 RefResolve(t, p) ==
   LET as == Atoms(p)
@@ -75,8 +96,11 @@ Eval(l, as, i, accS, accD) ==
            l2 == IF l[as[i]].scale = 0 THEN [l EXCEPT ![as[i]] = row] ELSE l
        IN Eval(l2, as, i + 1, Append(accS, R(row.scale)), Append(accD, DimVec(row.dim)))
 
-Init == /\ user = [s \in Keys |-> Absent]
-        /\ lut = [s \in Keys |-> Absent]
+\* a registry built with the library's defaults already holds "s" (alphabet Alias)
+Default(k) == IF Alias /\ k = "s" THEN [scale |-> 1, pfx |-> TRUE, dim |-> "T"] ELSE Absent
+InitTable == [k \in Keys |-> Default(k)]
+Init == /\ user = InitTable
+        /\ lut = InitTable
         /\ ucache = [p \in Probes |-> None]
         /\ edit = [s \in Keys |-> "none"]
         /\ hist = <<>>
